@@ -60,8 +60,8 @@ var reflectValueKinds = map[string][]string{
 func init() {
 	if p := registry["C04"]; p != nil {
 		run := p.run
-		p.run = func(r *Run) { run(r); reflectKindRule(r, "R-5", "internal/compiler") }
-		p.explain += " R-5: in every clause of a switch on X.Kind() in package compiler, the kind-restricted reflect methods called on X are defined for every kind the clause lists (a panic there crashes Build)."
+		p.run = func(r *Run) { run(r); reflectKindRule(r, "R-5", "internal/compiler"); c20UnsignedIndex(r, "R-6") }
+		p.explain += " R-5: in every clause of a switch on X.Kind() in package compiler, the kind-restricted reflect methods called on X are defined for every kind the clause lists (a panic there crashes Build). R-6: no table of runtime.Function is indexed with a signed 8/16-bit operand (Build and Disassemble panic for slots above 127)."
 	}
 }
 
